@@ -50,4 +50,4 @@ PLAN = [
 ]
 
 for (_op, _var, _sh, _exp) in PLAN:
-    _register("C03", "wf", _op, _var, _sh, {"quick": 240, "thorough": 900}, _exp)
+    _register("C03", "wf", _op, _var, _sh, {"quick": 600, "thorough": 1800}, _exp)
